@@ -382,41 +382,55 @@ func init() {
 }
 
 func c03BigArchives(c *Ctx) {
-	descs := []c03BigDesc{{0x12, 8, 17700, 30}}
+	type variant struct {
+		kind, codec uint64
+		v2, storeID bool
+	}
+	type job struct {
+		d        c03BigDesc
+		vs       []variant
+		nsamples int
+	}
+	// quick: 17 700 sections (> 16 384 indexed) through five variants, and 70 500 sections
+	// (> 65 536 indexed without identity CIDs) through LoadIndex/GenerateIndex for both sorted codecs
+	jobs := []job{
+		{c03BigDesc{0x12, 8, 17700, 30}, []variant{{7, 0x0400, true, true}, {3, 0x0401, true, true}, {0, codecInsertion, false, true}}, 24},
+		{c03BigDesc{0x12, 8, 70500, 30}, []variant{{0, 0x0400, false, false}, {2, 0x0401, false, false}}, 8},
+	}
 	if c.Thorough {
-		descs = append(descs, c03BigDesc{0x13, 20, 16384 + 16384/15 + 2, 0}, c03BigDesc{0x12, 8, 40000, 500})
+		var all []variant
+		for k := uint64(0); k < 10; k++ {
+			all = append(all, variant{k, pick(c.R, []uint64{0x0400, 0x0401}), c.R.Bool(), c.R.Bool()})
+		}
+		jobs = append(jobs,
+			job{c03BigDesc{0x13, 20, 16384 + 16384/15 + 2, 0}, all, 24},
+			job{c03BigDesc{0x12, 8, 40000, 500}, all, 24},
+			job{c03BigDesc{0x12, 8, 140000, 100}, []variant{{0, 0x0401, true, true}, {7, 0x0400, false, false}, {4, 0x0401, true, false}}, 8})
 	}
 	hlen := len(refPayload(nil, nil))
-	for _, d := range descs {
-		type variant struct {
-			kind, codec uint64
-			v2, storeID bool
-		}
-		vs := []variant{{0, 0x0400, false, false}, {2, 0x0401, false, false}, {7, 0x0400, true, true}, {3, 0x0401, true, true}, {0, codecInsertion, false, true}}
-		if c.Thorough {
-			for k := uint64(0); k < 10; k++ {
-				vs = append(vs, variant{k, pick(c.R, []uint64{0x0400, 0x0401}), c.R.Bool(), c.R.Bool()})
-			}
-		}
-		for _, v := range vs {
+	for _, j := range jobs {
+		d := j.d
+		for _, v := range j.vs {
 			r := c.R.Fork()
 			o := defaultGOpts
 			o.storeID = v.storeID
 			var samples []uint64
 			sv := VL{}
-			for k := 0; k < 24; k++ {
+			for k := 0; k < j.nsamples; k++ {
 				s := uint64(r.Intn(d.n + d.n/10))
 				switch {
-				case k < 4 && k < d.ndup:
+				case k < 2 && k < d.ndup:
 					s = uint64((7 * k) % d.n) // repeated later in the payload
-				case k == 4:
+				case k == 2:
 					s = 15 // an identity CID
-				case k == 5:
-					s = 16383
-				case k == 6:
-					s = 16384
-				case k == 7:
+				case k == 3:
 					s = uint64(d.n - 1)
+				case k == 4:
+					s = 16384
+				case k == 5 && d.n > 70000:
+					s = 69904 // the 65 536th non-identity section and its neighbours
+				case k == 6 && d.n > 70000:
+					s = 69906
 				}
 				samples = append(samples, s)
 				sv = append(sv, VN(s))
@@ -424,7 +438,9 @@ func c03BigArchives(c *Ctx) {
 			in := VL{VN(v.kind), o.val(), d.val(), VN(uint64(hlen)), VN(v.codec), sv, vbool(v.v2)}
 			c.Emit("idxgenbig", in, runIdxGenBigImpl(c, v.kind, o, d, v.codec, samples, v.v2), true)
 			c.Count("archive:more-than-16384-indexed-sections")
+			if d.n > 70000 {
+				c.Count("archive:more-than-65536-indexed-sections")
+			}
 		}
 	}
 }
-
